@@ -28,7 +28,8 @@ PROPS["C09"] = dict(
     stages=[dict(name="enum", module="MC_C09", cfg={"quick": "MC_C09_quick.cfg", "thorough": "MC_C09_thorough.cfg"},
                  timeout={"quick": 300, "thorough": 1500})],
     rule="one case per program of the families ifc/ifl (if-chains over condition values of every type, from context and as "
-         "literals), loop (lists, typed slices, strings incl. multi-byte, ranges; all 7 loop counters printed), kv, nest "
+         "literals), loop (lists, typed slices, strings incl. multi-byte, strings of 6 .. MaxStr code points with one wide character "
+         "at every position, ranges; all 7 loop counters printed), kv, nest "
          "(2 and 3 levels, outer counters printed after the inner loop), setp (all sequences of set/print/if/for statements "
          "up to MaxSetLen), ifnamed (values of defined and sized Go scalar types as conditions), rec (the same for tag active "
          "several times: recursive include and recursive macro over trees, counters printed after the recursion), global (set and "
